@@ -5,6 +5,7 @@
 -/
 import FP.Model.Calendar
 import FP.Gen.Layouts
+import FP.Model.LayoutPrec
 import FP.Lemmas.Calendar
 namespace FP.Props.C09
 open FP FP.Model FP.Model.Text FP.Model.Calendar FP.Lemmas.Calendar
@@ -211,16 +212,6 @@ example : (addMonthsClamp ⟨2020, 1, 31, 0, 0, 0, 0, 0⟩ 1).day = 29 ∧ (addM
 example : ValidDate ⟨2024, 2, 29, 0, 0, 0, 0, 0⟩ := by unfold ValidDate; decide
 
 /-! ### the precision tables of layouts.go -/
-
-/-- the precision a layout's text implies: the finest component it writes
-    (0 year … 5 second, fractions count as seconds; for a Time 0 hour … 2 second) -/
-def impliedPrecision (l : List Elem) : Nat :=
-  if l.any (fun e => e == .second2 || (match e with | .frac0 _ => true | _ => false)) then 5
-  else if l.contains .minute2 then 4
-  else if l.contains .hour then 3
-  else if l.contains .day2 then 2
-  else if l.contains .month2 then 1
-  else 0
 
 open FP.Gen.Layouts in
 /-- PRECISION IS THE LAYOUT'S: every entry of the regenerated `dateMap`, `dateTimeMap` and `timeMap`
